@@ -22,6 +22,7 @@ import (
 	"context"
 	"fmt"
 	"math"
+	"math/big"
 	"sort"
 	"strings"
 	"testing"
@@ -51,6 +52,7 @@ type c16Trigger struct {
 	bytes  []byte
 	valid  bool
 	twinOf int // index of the trigger this one copies (same prefix, sender, definition; other eon), -1 = none
+	sibOf  int // index of the trigger whose contract and pinned topic values this one uses at other topic positions, -1 = none
 }
 
 // item is one log placed into a block.
@@ -229,6 +231,85 @@ func (c *c16Chain) defByBytes(b []byte) *svc.EventTriggerDefinition {
 	return nil
 }
 
+// siblingDef derives from d a definition on the same contract that pins the
+// same topic values at other topic positions (a pinned topic 0 stays, unless
+// it is the only pinned topic: then it moves). nil if d pins no topic or no
+// other placement exists. With probe set nothing is drawn.
+func siblingDef(rt *rapid.T, l string, d *svc.EventTriggerDefinition, probe bool) *svc.EventTriggerDefinition {
+	var pos []uint64
+	args := map[uint64][]byte{}
+	for _, p := range d.LogPredicates {
+		if o := p.LogValueRef.Offset; o < 4 && !p.LogValueRef.Dynamic && p.ValuePredicate.Op == svc.BytesEq {
+			pos = append(pos, o)
+			args[o] = p.ValuePredicate.ByteArgs[0]
+		}
+	}
+	if len(pos) == 0 {
+		return nil
+	}
+	sort.Slice(pos, func(i, j int) bool { return pos[i] < pos[j] })
+	keep0 := pos[0] == 0 && len(pos) > 1
+	moving := pos
+	if keep0 {
+		moving = pos[1:]
+	}
+	// all increasing placements of the moving values into topics 1..3 other than the original one
+	var options [][]uint64
+	for mask := 1; mask < 8; mask++ {
+		var cand []uint64
+		for b := 0; b < 3; b++ {
+			if mask&(1<<b) != 0 {
+				cand = append(cand, uint64(b+1))
+			}
+		}
+		if len(cand) != len(moving) {
+			continue
+		}
+		same := true
+		for i := range cand {
+			if cand[i] != moving[i] {
+				same = false
+			}
+		}
+		if !same {
+			options = append(options, cand)
+		}
+	}
+	if len(options) == 0 {
+		return nil
+	}
+	if probe {
+		return &svc.EventTriggerDefinition{}
+	}
+	choice := options[rapid.IntRange(0, len(options)-1).Draw(rt, l+"placement")]
+	out := &svc.EventTriggerDefinition{Contract: d.Contract}
+	add := func(o uint64, arg []byte) {
+		out.LogPredicates = append(out.LogPredicates, svc.LogPredicate{LogValueRef: svc.LogValueRef{Offset: o},
+			ValuePredicate: svc.ValuePredicate{Op: svc.BytesEq, IntArgs: []*big.Int{}, ByteArgs: [][]byte{append([]byte{}, arg...)}}})
+	}
+	if keep0 {
+		add(0, args[0])
+	}
+	for i, o := range moving {
+		add(choice[i], args[o])
+	}
+	return out
+}
+
+// siblingPartner returns the index of a trigger that is the sibling of i (or
+// whose sibling i is), -1 if none.
+func (c *c16Chain) siblingPartner(i int) int {
+	if c.trig[i].sibOf >= 0 {
+		return c.trig[i].sibOf
+	}
+	for j, t := range c.trig {
+		if t.sibOf == i {
+			return j
+		}
+	}
+	return -1
+}
+
 // ---------------------------------------------------------------------------
 // chain generator
 
@@ -258,7 +339,7 @@ func genC16Chain(rt *rapid.T, exclReReg bool, rec *Recorder) *c16Chain {
 	nT := rapid.IntRange(1, 4).Draw(rt, "triggers")
 	for i := 0; i < nT; i++ {
 		l := fmt.Sprintf("t%d", i)
-		t := c16Trigger{valid: true, twinOf: -1, prefix: smallHash(0xcc, i), sender: smallAddr(0x30 + rapid.IntRange(0, 1).Draw(rt, l+"owner"))}
+		t := c16Trigger{valid: true, twinOf: -1, sibOf: -1, prefix: smallHash(0xcc, i), sender: smallAddr(0x30 + rapid.IntRange(0, 1).Draw(rt, l+"owner"))}
 		t.eon = rapid.SampledFrom([]uint64{0, 1, 1, 2}).Draw(rt, l+"eon")
 		if i > 0 && rapid.IntRange(0, 9).Draw(rt, l+"sameIdentityOtherEon") < 4 {
 			// the same (prefix, sender, definition) registered for another eon
@@ -274,7 +355,7 @@ func genC16Chain(rt *rapid.T, exclReReg bool, rec *Recorder) *c16Chain {
 						used[x.eon] = true
 					}
 				}
-				t = c16Trigger{valid: true, twinOf: j, prefix: o.prefix, sender: o.sender, def: o.def, bytes: o.bytes}
+				t = c16Trigger{valid: true, twinOf: j, sibOf: -1, prefix: o.prefix, sender: o.sender, def: o.def, bytes: o.bytes}
 				for e := uint64(0); e < 8; e++ {
 					if !used[e] {
 						t.eon = e
@@ -285,10 +366,40 @@ func genC16Chain(rt *rapid.T, exclReReg bool, rec *Recorder) *c16Chain {
 				continue
 			}
 		}
+		if i > 0 && rapid.IntRange(0, 9).Draw(rt, l+"sibling") < 4 {
+			// a "sibling": same contract, the same pinned 32-byte topic values,
+			// but at other topic positions (Transfer FROM x / Transfer TO x)
+			var cands []int
+			for j := 0; j < i; j++ {
+				if c.trig[j].valid && !hasDynamic(&c.trig[j].def) && siblingDef(rt, "", &c.trig[j].def, true) != nil {
+					cands = append(cands, j)
+				}
+			}
+			if len(cands) > 0 {
+				j := rapid.SampledFrom(cands).Draw(rt, l+"siblingOf")
+				t.def = *siblingDef(rt, l+"sib", &c.trig[j].def, false)
+				t.sibOf = j
+				t.bytes = t.def.MarshalBytes()
+				c.trig = append(c.trig, t)
+				continue
+			}
+		}
 		if i > 0 && rapid.IntRange(0, 4).Draw(rt, l+"sameDef") == 0 && !hasDynamic(&c.trig[0].def) && c.trig[0].valid {
 			t.def = c.trig[0].def // two triggers waiting for the same event
 		} else {
 			t.def = genValidDef(rt, l+"def", 2)
+			pins0 := false
+			for _, p := range t.def.LogPredicates {
+				if p.LogValueRef.Offset == 0 && p.ValuePredicate.Op == svc.BytesEq {
+					pins0 = true
+				}
+			}
+			if !pins0 && rapid.Bool().Draw(rt, l+"pinEventSignature") {
+				// most real triggers pin topic 0 (the event signature)
+				sig := smallHash(0xee, rapid.IntRange(0, 3).Draw(rt, l+"signature"))
+				t.def.LogPredicates = append(t.def.LogPredicates, svc.LogPredicate{LogValueRef: svc.LogValueRef{Offset: 0},
+					ValuePredicate: svc.ValuePredicate{Op: svc.BytesEq, IntArgs: []*big.Int{}, ByteArgs: [][]byte{sig.Bytes()}}})
+			}
 			if hasDynamic(&t.def) {
 				// a dynamic reference is only total on logs laid out for it: give it its own contract
 				t.def.Contract = smallAddr(0x40 + i)
@@ -343,7 +454,7 @@ func genC16Chain(rt *rapid.T, exclReReg bool, rec *Recorder) *c16Chain {
 		last := uint64(0)
 		for j := 0; j < nReg && last < maxN; j++ {
 			r := last + uint64(rapid.IntRange(1, int(min(maxN-last, 14))).Draw(rt, fmt.Sprintf("%sreg%d", l, j)))
-			if o := t.twinOf; j == 0 && o >= 0 && len(regsOf[o]) > 0 && rapid.IntRange(0, 4).Draw(rt, l+"nearTwin") > 0 {
+			if o := max(t.twinOf, t.sibOf); j == 0 && o >= 0 && len(regsOf[o]) > 0 && rapid.IntRange(0, 4).Draw(rt, l+"nearTwin") > 0 {
 				// close to the original's registration so that both are active together
 				r0 := regsOf[o][0][0]
 				r = uint64(max(1, int(r0)+rapid.IntRange(-1, 1).Draw(rt, l+"twinShift")))
@@ -355,7 +466,7 @@ func genC16Chain(rt *rapid.T, exclReReg bool, rec *Recorder) *c16Chain {
 				break
 			}
 			ttl := rapid.SampledFrom(ttls).Draw(rt, fmt.Sprintf("%sttl%d", l, j))
-			if t.twinOf >= 0 && j == 0 {
+			if (t.twinOf >= 0 || t.sibOf >= 0) && j == 0 {
 				ttl = rapid.SampledFrom([]uint64{3, 6, 6, 12, 40}).Draw(rt, fmt.Sprintf("%stwinTTL", l))
 			} else if rapid.IntRange(0, 19).Draw(rt, fmt.Sprintf("%shugeTTL%d", l, j)) == 0 {
 				ttl = 1 << 63 // expiration beyond int64: inadmissible registration
@@ -423,6 +534,31 @@ func genC16Chain(rt *rapid.T, exclReReg bool, rec *Recorder) *c16Chain {
 			}
 			want := rapid.IntRange(0, 9).Draw(rt, ll+"want") < 7 || (j == 0 && rapid.Bool().Draw(rt, ll+"want0")) || outsideOnly
 			spec, logInfo := genLogForInfo(rt, ll, &t.def, want)
+			if partner := c.siblingPartner(i); partner >= 0 && t.valid {
+				pd := &c.trig[partner].def
+				if rapid.IntRange(0, 2).Draw(rt, ll+"alsoPartner") == 0 {
+					// also carry the partner's pinned values where this definition leaves the topic free
+					own := map[uint64]bool{}
+					for _, p := range t.def.LogPredicates {
+						if p.LogValueRef.Offset < 4 {
+							own[p.LogValueRef.Offset] = true
+						}
+					}
+					for _, p := range pd.LogPredicates {
+						if o := p.LogValueRef.Offset; o < 4 && p.ValuePredicate.Op == svc.BytesEq && !own[o] {
+							copy(spec.Topics[o][:], p.ValuePredicate.ByteArgs[0])
+						}
+					}
+				}
+				a, _ := refMatch(&t.def, specAsLog(spec))
+				b, _ := refMatch(pd, specAsLog(spec))
+				switch {
+				case a && b:
+					cutLabels["sibling-triggers:log-matches-both"] = true
+				case a || b:
+					cutLabels["sibling-triggers:log-matches-exactly-one"] = true
+				}
+			}
 			cut := strings.SplitN(logInfo, "|", 2)[0]
 			if t.valid {
 				for _, sh := range strings.Split(logInfo, "|")[1:] {
@@ -495,7 +631,7 @@ func genC16Chain(rt *rapid.T, exclReReg bool, rec *Recorder) *c16Chain {
 	c.rel = dedup(c.rel)
 	c.desc = fmt.Sprintf("f=%d a=%d b=%d fork=%v %s", c.f, c.a, c.b, c.fork, strings.Join(desc, " "))
 	for i, t := range c.trig {
-		c.desc += fmt.Sprintf(" T%d{eon=%d valid=%v twinOf=%d %s}", i, t.eon, t.valid, t.twinOf, defDesc(&t.def))
+		c.desc += fmt.Sprintf(" T%d{eon=%d valid=%v twinOf=%d sibOf=%d %s}", i, t.eon, t.valid, t.twinOf, t.sibOf, defDesc(&t.def))
 	}
 	return c
 }
@@ -868,6 +1004,12 @@ func c16Labels(c *c16Chain, hs []c16Head, p *c16Partition, fired map[string]stri
 	labels = append(labels, fmt.Sprintf("fired=%d", min(len(fired), 3)))
 	labels = append(labels, c.rel...)
 	labels = append(labels, c.twins...)
+	for _, t := range c.trig {
+		if t.sibOf >= 0 {
+			labels = append(labels, "chain:sibling-triggers(same-topic-values-at-other-positions)")
+			break
+		}
+	}
 	for _, t := range c.trig {
 		if t.twinOf >= 0 {
 			labels = append(labels, "chain:same-identity-registered-for-several-eons")
